@@ -6,6 +6,8 @@
 -/
 import UnytModel.DriverBase
 import UnytModel.TempTable
+import UnytModel.TempSeq
+import UnytModel.TempReduce
 
 namespace Unyt
 open Unyt.Temp
@@ -55,6 +57,29 @@ def unitVOut : Except Err (UnitV Float) → String
   | .ok u => s!"ok\t{bitsStr u.scale}\t{bitsStr u.offset}\t{u.dim.str}"
   | .error e => s!"err\t{e.str}"
 
+/-- a Python sequence of quantities: units `a,b,c` and readings `x,y,z` -/
+def parseSeq (us xs : String) : Option (List (TU Float × Float)) :=
+  let ul := us.splitOn ","
+  let xl := xs.splitOn ","
+  if ul.length != xl.length then none
+  else (ul.zip xl).mapM fun p =>
+    match parseTU p.1, fb p.2 with
+    | some u, some v => some (u, v)
+    | _, _ => none
+
+def parseFloats (xs : String) : Option (List Float) := (xs.splitOn ",").mapM fb
+
+def parseSide (s : String) : Option SeqSide :=
+  if s == "left" then some .left else if s == "right" then some .right else none
+
+def floatsStr (l : List Float) : String := ",".intercalate (l.map bitsStr)
+
+/-- labelled readings of an elementwise result (one unit decision: the label of the first element) -/
+def lvListOut : Except Err (List (TU Float × Float)) → String
+  | .ok [] => "ok\tnone\t"
+  | .ok ((u, v) :: rest) => s!"ok\t{tuStr u}\t{floatsStr (v :: rest.map (·.2))}"
+  | .error e => s!"err\t{e.str}"
+
 end C08Wire
 open C08Wire
 
@@ -76,6 +101,35 @@ def stepC08 (fields : List String) : String :=
       | .ok (p, q) => s!"ok\t{bitsStr p}\t{bitsStr q}"
       | .error e => s!"err\t{e.str}"
     | _, _, _, _ => "bad-op"
+  -- Python sequences (list / tuple) of quantities as operands: `_coerce_iterable_units`
+  | ["c08.coerce", us, xs] =>
+    match parseSeq us xs with
+    | some seq =>
+      match coerceIterable genSyms genNames tab seq with
+      | some (ff, ys) => s!"ok\t{tuStr ff}\t{floatsStr ys}"
+      | none => "ok\tnone\t"
+    | none => "bad-op"
+  | ["c08.seqadd", side, a, xs, us, ys] =>
+    match parseSide side, parseTU a, parseFloats xs, parseSeq us ys with
+    | some sd, some u, some xl, some seq => lvListOut (tempSeqBinary tempAdd sd genSyms genNames tab u xl seq)
+    | _, _, _, _ => "bad-op"
+  | ["c08.seqsub", side, a, xs, us, ys] =>
+    match parseSide side, parseTU a, parseFloats xs, parseSeq us ys with
+    | some sd, some u, some xl, some seq => lvListOut (tempSeqBinary tempSub sd genSyms genNames tab u xl seq)
+    | _, _, _, _ => "bad-op"
+  | ["c08.seqcmp", side, a, xs, us, ys] =>
+    match parseSide side, parseTU a, parseFloats xs, parseSeq us ys with
+    | some sd, some u, some xl, some seq =>
+      match tempSeqBinary tempCmpArgs sd genSyms genNames tab u xl seq with
+      | .ok l => s!"ok\t{floatsStr (l.map (·.1))}\t{floatsStr (l.map (·.2))}"
+      | .error e => s!"err\t{e.str}"
+    | _, _, _, _ => "bad-op"
+  -- reductions with a start value carrying units: `np.add.reduce(a, initial=q)`, `np.subtract.reduce(a, initial=q)`
+  | ["c08.redinit", op, a, xs, b, y] =>
+    match (if op == "add" then some RedOp.add else if op == "sub" then some RedOp.sub else none),
+        parseTU a, parseFloats xs, parseTU b, fb y with
+    | some o, some u, some xl, some ui, some xi => lvOut (tempReduceInitial o genSyms genNames tab u xl ui xi)
+    | _, _, _, _, _ => "bad-op"
   | ["c08.reduce", r, a] =>
     match parseRule r, parseTU a with
     | some rule, some u =>
